@@ -318,7 +318,10 @@ class AnotherSolution(Contract):
     def cases(self, tier):
         out = []
         for optional in (False, True):
-            for seq in (("another",), ("another", "another"), ("variable",), ("variable", "another"), ("another", "variable")):
+            seqs = [("another",), ("another", "another"), ("variable",), ("variable", "another"), ("another", "variable")]
+            if tier == "thorough":
+                seqs += [("another", "another", "another"), ("variable", "variable", "another"), ("another", "variable", "another")]
+            for seq in seqs:
                 out.append(dict(optional=optional, seq=seq))
         return out
 
@@ -468,7 +471,10 @@ class CallSequences(Contract):
             for optimizer in ("incremental", "optimize"):
                 if obj == "none" and optimizer == "optimize":
                     continue
-                for seq in (("solve", "solve"), ("initialize", "solve"), ("export", "solve"), ("solve", "export", "solve"), ("initialize", "initialize", "solve"), ("second_solver",)):
+                seqs = [("solve", "solve"), ("initialize", "solve"), ("export", "solve"), ("solve", "export", "solve"), ("initialize", "initialize", "solve"), ("second_solver",)]
+                if tier == "thorough":
+                    seqs += [("solve", "solve", "solve"), ("export", "export", "solve", "solve"), ("solve", "initialize", "solve"), ("second_solver", "solve", "export")]
+                for seq in seqs:
                     if optimizer == "incremental" and obj != "none":
                         # solve() with the incremental optimiser is covered, for every iteration count, by the
                         # loop contract (IncrementalOptimizer: the loop leaves the stack as it found it)
